@@ -75,8 +75,10 @@ def c05(rec, tier):
     f7_roots.run(rec, F)
     f4_gc.gc_phase_order(rec, F)
     f4_gc.no_mark_after_evict(rec, F)
+    f12_order.unconditional_duties(rec, F, ("intern-sweep",))
     f4_gc.alloc_rooting(rec, F)
     f8_hazards.run(rec, F)
+    f4_vm.native_args_copied(rec, F)
     SF = STRESS(rec)
     if SF is not None:
         f4_gc.gc_phase_order(rec, SF)
@@ -96,6 +98,7 @@ def c09(rec, tier):
     f4_gc.intern_funnel(rec, F)
     f4_gc.gc_phase_order(rec, F)
     f4_gc.no_mark_after_evict(rec, F)
+    f12_order.unconditional_duties(rec, F, ("intern-sweep",))
     # identity = content only while every holder of a string keeps it marked: containers trace keys too
     f5_trace.run_generic_params(rec, F)
     # every field that holds strings (names, keys, paths) is traced: a string freed while a table still uses it as a key
@@ -118,6 +121,7 @@ def c20(rec, tier):
     f4_gc.alloc_rooting(rec, F)
     f4_gc.gc_phase_order(rec, F)
     f4_gc.no_mark_after_evict(rec, F)
+    f12_order.unconditional_duties(rec, F, ("intern-sweep",))
     f7_roots.run(rec, F)
     f4_gc.intern_funnel(rec, F)
     SF = STRESS(rec)
@@ -200,6 +204,8 @@ def c12(rec, tier):
     S = SY(rec)
     f11_peephole.run(rec, F, S)
     f2_emit.run_slots(rec, S)
+    # the fusion windows are only safe because the compiler keeps argument lookups apart from Call
+    f2_emit.run_argument_delimiter(rec, S)
     # what the rewrites write is encoded and measured by the same tables (a fused op only exists after this pass)
     T = f1_isa.run_tables(rec, F)
     f1_isa.run_width(rec, F, T)
@@ -243,6 +249,7 @@ def c07(rec, tier):
     # a synchronous sender must stay parked until its value is taken: the wake-up search precedes parking (a fiber that
     # is already parked re-queues itself through its own stale waiter), dequeues stay lazy, finished fibers are skipped
     f4_sched.wake_before_park(rec, F)
+    f4_chan.waiter_registration(rec, F)
     f12_order.eager_dequeue(rec, F)
     f12_order.complete_not_runnable(rec, F)
     # a buffered value must survive collection while only the channel holds it
@@ -254,6 +261,7 @@ def c08(rec, tier):
     f4_sched.run(rec, F)
     f4_vm.runtime_error_has_error(rec, F)
     f4_chan.runnable_scan(rec, F)
+    f4_chan.waiter_registration(rec, F)
     f12_order.eager_dequeue(rec, F)
     f12_order.complete_not_runnable(rec, F)
 
@@ -290,6 +298,7 @@ def c10(rec, tier):
     f10_parity.run_scan_covers_stack(rec, F)
     f10_parity.run_stale_after_scan(rec, F)
     f12_order.forward_single_hop(rec, F)
+    f12_order.unconditional_duties(rec, F, ("scan-roots",))
     # any value works as a map key: equal values hash equal
     f10_parity.run_number_equality(rec, F, "unboxed")
     # the allocation a grown list moved into stays alive while an alias still forwards into it
@@ -359,6 +368,11 @@ def c16(rec, tier):
     f4_vm.callback_exit(rec, F)
     f4_gc.growth_progress(rec, F)
     f8_hazards.run(rec, F)
+    f4_vm.native_args_copied(rec, F)
+    # a crash in the collector or through a stale list block is a crash of the runtime: trace completeness and the
+    # forwarded-write discipline are necessary here too
+    f5_trace.run(rec, F)
+    f10_parity.run_forwarded_writes(rec, F)
     f4_exc.run_native_env(rec, F, S)
     f9_casts.run_bounds_checks(rec, F)
     # sentinel tests (x == VALUE_UNDEFINED) guard host panics
